@@ -450,8 +450,9 @@ def execute(case, keep_text=False, after_fit=None):
 
             if kind == 'nestle_real':
                 # ground truth = whatever the real sampler returned
-                truth = [{'samples': np.array(opt.get_samples(0)).tolist(),
-                          'weights': np.array(opt.get_weights(0)).tolist(),
+                lr_ = samplers.last_real_result
+                truth = [{'samples': np.array(lr_['samples']).tolist(),
+                          'weights': np.array(lr_['weights']).tolist(),
                           'map': None, 'ml': None}]
                 out.bump('probes', 'real_nestle_run')
             else:
